@@ -8,7 +8,7 @@ import (
 // Trace generation for C08.
 
 // points of the quick exhaustive family: the four verifPoint hooks and the log points around the clean-up steps
-var c08QuickPoints = []string{"", "RegisterShard.afterAdd", "sender.beforeClose", "sender.afterClose", "UnregisterShard.afterUnlock", "s.rmChan", "r.rmAck", "r.rmCancel",
+var c08QuickPoints = []string{"", "RegisterShard.afterAdd", "replay.afterLookup", "sender.beforeClose", "sender.afterClose", "UnregisterShard.afterUnlock", "s.rmChan", "r.rmAck", "r.rmCancel",
 	"s.start", "s.set", "r.start", "r.term", "r.termRm", "r.termAck", "r.open", "r.setAck", "r.setCancel"}
 
 // event orders of two incarnations A (older) and B: O=open, X=break, R=resume of the pause.  Constraints: OA<OB, Ox<Xx, Ox<Rx.
@@ -117,7 +117,7 @@ func c08Random(rng *rand.Rand) []string {
 		if rng.IntN(3) == 0 {
 			return c08AllPoints[rng.IntN(len(c08AllPoints))]
 		}
-		hot := []string{"RegisterShard.afterAdd", "sender.beforeClose", "sender.afterClose", "UnregisterShard.afterUnlock", "s.rmChan", "r.rmAck", "r.rmCancel"}
+		hot := []string{"RegisterShard.afterAdd", "replay.afterLookup", "replay.afterLookup", "sender.beforeClose", "sender.afterClose", "UnregisterShard.afterUnlock", "s.rmChan", "r.rmAck", "r.rmCancel"}
 		return hot[rng.IntN(len(hot))]
 	}
 	steps := 6 + rng.IntN(14)
@@ -160,9 +160,79 @@ func c08Random(rng *rand.Rand) []string {
 	return append(ops, "end")
 }
 
+// c08ReplayGap: the look-up-to-send gap of the watermark replay.  A receiver (incarnation 0, shard 101) holds a watermark;
+// incarnation A of shard 201 is held inside RegisterShard (at p1), incarnation B replaces the shard's channel, A's
+// replay looks B's channel up and is held at replay.afterLookup, B shuts down (held at one of its close / remove
+// points, or not), A sends.  Every order of the events open A < open B, resume p1 < resume look-up, break B, resume B,
+// and optionally break A.
+func c08ReplayGap() [][]string {
+	var cases [][]string
+	a, b := 1, 2
+	for _, p1 := range []string{"s.set", "RegisterShard.afterAdd", "s.replay"} {
+		for _, pb := range []string{"", "sender.beforeClose", "sender.afterClose", "UnregisterShard.afterUnlock", "s.rmChan"} {
+			for _, withXA := range []bool{false, true} {
+				events := []string{"OA", "OB", "R1", "R2", "XB"}
+				if pb != "" {
+					events = append(events, "RB")
+				}
+				if withXA {
+					events = append(events, "XA")
+				}
+				before := map[string][]string{"OB": {"OA"}, "R1": {"OA"}, "R2": {"R1"}, "XB": {"OB"}, "RB": {"OB"}, "XA": {"OA"}}
+				var rec func(cur []string, used map[string]bool)
+				rec = func(cur []string, used map[string]bool) {
+					if len(cur) == len(events) {
+						ops := []string{"open 101", "wm 0 7", fmt.Sprintf("pause %s %d", p1, a), fmt.Sprintf("pause replay.afterLookup %d", a)}
+						if pb != "" {
+							ops = append(ops, fmt.Sprintf("pause %s %d", pb, b))
+						}
+						for _, ev := range cur {
+							switch ev {
+							case "OA", "OB":
+								ops = append(ops, "open 201")
+							case "R1":
+								ops = append(ops, fmt.Sprintf("resume %s %d", p1, a))
+							case "R2":
+								ops = append(ops, fmt.Sprintf("resume replay.afterLookup %d", a))
+							case "XB":
+								ops = append(ops, fmt.Sprintf("break %d", b))
+							case "RB":
+								ops = append(ops, fmt.Sprintf("resume %s %d", pb, b))
+							case "XA":
+								ops = append(ops, fmt.Sprintf("break %d", a))
+							}
+						}
+						cases = append(cases, append(ops, "end"))
+						return
+					}
+				next:
+					for _, ev := range events {
+						if used[ev] {
+							continue
+						}
+						for _, pre := range before[ev] {
+							if !used[pre] {
+								continue next
+							}
+						}
+						used[ev] = true
+						rec(append(cur, ev), used)
+						used[ev] = false
+					}
+				}
+				rec(nil, map[string]bool{})
+			}
+		}
+	}
+	return cases
+}
+
 func genC08(e *Env) [][]string {
 	var cases [][]string
 	pts := c08QuickPoints
+	gap := c08ReplayGap()
+	e.Stats["replay_gap_family"] = len(gap)
+	cases = append(cases, gap...)
 	cases = append(cases, c08TwoIncarnations(pts, true)...)
 	if e.Thorough() {
 		cases = append(cases, c08TwoIncarnations(pts, false)...) // the same family without a watermark-holding receiver
